@@ -261,10 +261,21 @@ func (c *ctx) fill(v reflect.Value, exact bool) {
 			v.SetString([]string{"Drop", "Mark"}[c.rnd.Intn(2)])
 		case "RoamingType":
 			v.SetString([]string{"Passive", "Handover"}[c.rnd.Intn(2)])
-		case "MessageType":
-			v.SetString([]string{"JoinReq", "JoinAns", "PRStartReq", "XmitDataAns"}[c.rnd.Intn(4)])
-		case "ResultCode":
-			v.SetString([]string{"Success", "MICFailed", "Other", "UnknownDevEUI"}[c.rnd.Intn(4)])
+		case "MessageType": // every message type of the Backend Interfaces specification (and now and then any other text)
+			all := []string{"JoinReq", "JoinAns", "RejoinReq", "RejoinAns", "AppSKeyReq", "AppSKeyAns", "PRStartReq", "PRStartAns", "PRStartNotif", "PRStopReq", "PRStopAns",
+				"HRStartReq", "HRStartAns", "HRStopReq", "HRStopAns", "HomeNSReq", "HomeNSAns", "ProfileReq", "ProfileAns", "XmitDataReq", "XmitDataAns", "XmitLocReq", "XmitLocAns"}
+			v.SetString(all[c.rnd.Intn(len(all))])
+			if c.rnd.Intn(10) == 0 {
+				v.SetString(c.randString())
+			}
+		case "ResultCode": // every result code as the specification spells it, as the package spells it, and any other text
+			all := []string{"Success", "MICFailed", "JoinReqFailed", "NoRoamingAgreement", "DevRoamingDisallowed", "RoamingActDisallowed", "ActivationDisallowed", "UnknownDevEUI",
+				"UnknownDevAddr", "UnknownSender", "UnknownReceiver", "Deferred", "XmitFailed", "InvalidFPort", "InvalidProtocolVersion", "StaleDeviceProfile", "MalformedRequest",
+				"FrameSizeError", "Other", string(backend.UnknownReceiver), string(backend.RoamingActDisallowed), "success", "SUCCESS", ""}
+			v.SetString(all[c.rnd.Intn(len(all))])
+			if c.rnd.Intn(10) == 0 {
+				v.SetString(c.randString())
+			}
 		default:
 			v.SetString(c.randString())
 		}
